@@ -48,7 +48,9 @@ def clist(items):
 
 
 def cstrs(xs):
-  return clist([cstr(x) for x in xs])
+  xs = list(xs)
+  return clist([cstr(x) for x in xs]) if xs else '(@nil string)'
+
 
 
 def cnat(n):
